@@ -50,6 +50,11 @@ def max_instances():
     out.append(("2.0 observed-data(container)", "2.0", "ObservedData", {"first_observed": O.TS, "last_observed": O.TS, "number_observed": 1,
                                                                          "objects": {"0": {"type": "file", "name": "", "size": 0}, "1": {"type": "directory", "path": "/", "contains_refs": ["0", "0"]},
                                                                                      "0-a": {"type": "file", "name": "z"}, "10": {"type": "file", "name": "y"}}}))
+    # empty containers as stored values (legal in free-form content: dictionary properties, custom properties): an empty list or dictionary is a value like any other
+    out.append(("2.1 email-message(empty containers)", "2.1", "EmailMessage", {"is_multipart": False, "subject": "", "additional_header_fields": {"x-list": [], "x-one": ["a"], "x-str": ""}}))
+    out.append(("2.1 identity(custom empty containers)", "2.1", "Identity", {"name": "n", "allow_custom": True, "x_opts": {"tags": [], "map": {}, "zero": 0, "off": False, "n": None},
+                                                                            "x_list": [], "x_dict": {}}))
+    out.append(("2.0 campaign(custom empty containers)", "2.0", "Campaign", {"name": "n", "allow_custom": True, "x_opts": {"tags": [], "deep": {"er": []}}, "x_list": []}))
     # a list longer than ten elements (index order is not string order) on a versionable object
     out.append(("2.1 identity(long list)", "2.1", "Identity", {"name": "n", "labels": ["l%d" % (i % 5) for i in range(13)], "sectors": ["aerospace"] * 11}))
     return out
@@ -72,7 +77,8 @@ def construct_line(tid, v, cls, args, steps, entry):
             import stix2
             d = json.loads(base.serialize())
             d["granular_markings"] = gm
-            obj = stix2.parse(json.dumps(d), version=v) if "id" in d else stix2.parse_observable(json.dumps(d), version=v)
+            ac = bool(args.get("allow_custom"))
+            obj = stix2.parse(json.dumps(d), version=v, allow_custom=ac) if "id" in d else stix2.parse_observable(json.dumps(d), version=v, allow_custom=ac)
         res = {"k": "new"}
         post = IM.project(O.plain(dict(obj)))
     except Exception as e:  # noqa
